@@ -77,6 +77,7 @@ type Worker struct {
 type minEntry struct {
 	min    Case
 	minObs string
+	minExp string
 	steps  int
 }
 
@@ -142,30 +143,60 @@ func (w *Worker) Account(c Case, r Result) {
 
 func (w *Worker) Count(name string, n int64) { w.Counters[name] += n }
 
+// Tick accounts for n cases that the unit's own fast path evaluated and found to hold (the
+// same oracle as Eval, without building a Case); violating cases always go through Do.
+func (w *Worker) Tick(n int64) {
+	w.Evaluations += n
+	w.States += n
+	w.Transitions += n
+}
+
+// Seen accounts for a non-trivial outcome found on the fast path.
+func (w *Worker) Seen(hash uint64, sample func() Case) {
+	w.Nontrivial++
+	if hash != 0 {
+		if _, ok := w.hashes[hash]; !ok {
+			if len(w.hashes) < w.hashCap {
+				w.hashes[hash] = struct{}{}
+			} else {
+				w.HashCapped = true
+			}
+		}
+	}
+	if w.Nontrivial%w.sampleEvery == 0 && len(w.Samples) < 6 {
+		w.Samples = append(w.Samples, sample())
+		w.sampleEvery *= 7
+	}
+}
+
+// Guard marks the library call in flight for the hang watchdog (fast paths call it themselves).
+func Guard(c *Case) { currentCase.Store(c); callStart.Store(time.Now().UnixNano()) }
+func Unguard()      { callStart.Store(0) }
+
 func (w *Worker) violation(c Case, o Obs) {
 	w.Counters["violating_cases"]++
-	min, minObs, steps := w.minimise(c, o)
+	min, minObs, minExp, steps := w.minimise(c, o)
 	sig := Signature(o.Clause, o.Class, min)
 	if v, ok := w.viol[sig]; ok {
 		v.Count++
 		return
 	}
 	w.viol[sig] = &Violation{
-		Property: w.Check.ID, Obs: o, Case: c, Min: min, MinObs: minObs, Sig: sig, Count: 1, Shrinks: steps,
+		Property: w.Check.ID, Obs: o, Case: c, Min: min, MinObs: minObs, MinExp: minExp, Sig: sig, Count: 1, Shrinks: steps,
 	}
 }
 
 // minimise greedily shrinks c while some shrink candidate still violates the same clause with the
 // same observation class. Deterministic: candidates are tried in the order Shrink returns them.
-func (w *Worker) minimise(c Case, o Obs) (Case, string, int) {
+func (w *Worker) minimise(c Case, o Obs) (Case, string, string, int) {
 	if w.Check.Shrink == nil {
-		return c, o.Observed, 0
+		return c, o.Observed, o.Expected, 0
 	}
 	key := o.Clause + "\x00" + o.Class + "\x00" + c.String()
 	if e, ok := w.minCache[key]; ok {
-		return e.min, e.minObs, e.steps
+		return e.min, e.minObs, e.minExp, e.steps
 	}
-	cur, curObs := c, o.Observed
+	cur, curObs, curExp := c, o.Observed, o.Expected
 	steps := 0
 	var trail []string
 	for steps < 200 {
@@ -174,7 +205,7 @@ func (w *Worker) minimise(c Case, o Obs) (Case, string, int) {
 			ck := o.Clause + "\x00" + o.Class + "\x00" + cand.String()
 			if e, ok := w.minCache[ck]; ok {
 				// a case we already minimised: jump to its result
-				cur, curObs = e.min, e.minObs
+				cur, curObs, curExp = e.min, e.minObs, e.minExp
 				steps += e.steps + 1
 				progressed = false
 				goto done
@@ -185,6 +216,7 @@ func (w *Worker) minimise(c Case, o Obs) (Case, string, int) {
 				if oo.Clause == o.Clause && oo.Class == o.Class {
 					hit = true
 					curObs = oo.Observed
+					curExp = oo.Expected
 					break
 				}
 			}
@@ -201,14 +233,14 @@ func (w *Worker) minimise(c Case, o Obs) (Case, string, int) {
 		}
 	}
 done:
-	e := minEntry{cur, curObs, steps}
+	e := minEntry{cur, curObs, curExp, steps}
 	if len(w.minCache) < 200000 {
 		w.minCache[key] = e
 		for _, t := range trail {
 			w.minCache[t] = e
 		}
 	}
-	return cur, curObs, steps
+	return cur, curObs, curExp, steps
 }
 
 // UnitResult is what a worker process reports for one unit (one JSON line on stdout).
